@@ -313,6 +313,89 @@ def check_handed_on(case):
     return None
 
 
+def check_string_pairs(alphabet):
+    """names of a two-string parameter class over every pair of strings made of up to three pieces of `alphabet`: two
+    different pairs never share a name (pieces: a letter, the ` b=` separator shape, a white-space / line-break
+    character, `None`)"""
+    import hdl21 as h
+    import itertools as it
+    from hdl21.params import _unique_name
+
+    @h.paramclass
+    class Two:
+        a = h.Param(dtype=str, desc="a", default="x")
+        b = h.Param(dtype=str, desc="b", default="y")
+    strings = sorted({"".join(t) for n in range(0, 4) for t in it.product(alphabet, repeat=n)})
+    seen = {}
+    n = 0
+    for a in strings:
+        for b in strings:
+            n += 1
+            name = _unique_name(Two(a=a, b=b))
+            other = seen.setdefault(name, (a, b))
+            if other != (a, b):
+                return ("names.collide/strings", f"Two(a={other[0]!r}, b={other[1]!r}) and Two(a={a!r}, b={b!r}) are both "
+                                                 f"named {name!r}", {"case": "string-pairs", "alphabet": list(alphabet)})
+    check_string_pairs.count = getattr(check_string_pairs, "count", 0) + n
+    return None
+
+
+ALPHABETS = [("1", " b=", "\n"), ("1", "=", " ", "\t"), ("b", " b=2", "\r\n", "None"), ("1", " b=", "\u2028", "\x0b"),
+             ("None", " ", "\n", "a=")]
+
+
+def check_long_session(n_other):
+    """memoisation is total: a call repeated after `n_other` other cached calls (of this and of other generators, nested
+    ones included) still returns the first module and does not run the body again"""
+    import hdl21 as h
+    runs = {"n": 0}
+
+    @h.paramclass
+    class LP:
+        k = h.Param(dtype=int, desc="k", default=0)
+
+    @h.generator
+    def First(p: LP) -> h.Module:
+        runs["n"] += 1
+        m = h.Module()
+        m.a = h.Port()
+        return m
+
+    @h.generator
+    def Other(p: LP) -> h.Module:
+        m = h.Module()
+        m.a = h.Port()
+        return m
+
+    @h.generator
+    def Nest(p: LP) -> h.Module:
+        m = h.Module()
+        m.s = h.Signal()
+        m.i = Other(k=-p.k - 1)(a=m.s)
+        return m
+    w = {"case": "long-session", "n_other": n_other}
+    first = First(k=7)
+    held = Nest(k=3)
+    for k in range(n_other // 2):
+        Other(k=k)
+        Nest(k=k + 10)
+    if First(k=7) is not first or First(LP(k=7)) is not first or runs["n"] != 1:
+        return ("memo.forgotten", f"First(k=7) repeated after {n_other} other generator calls is rebuilt "
+                                  f"(body ran {runs['n']} times)", w)
+    if Nest(k=3) is not held or Nest(k=3).instances["i"].of is not Other(k=-4):
+        return ("memo.forgotten", f"a nested call repeated after {n_other} other generator calls is rebuilt", w)
+    top = h.Module(name="LongTop")
+    top.s = h.Signal()
+    top.u0 = first(a=top.s)
+    top.u1 = First(k=7)(a=top.s)
+    try:
+        h.to_proto(top)
+    except Exception as e:
+        return ("names.export", f"design holding First(k=7) from before and after {n_other} other calls does not "
+                                f"export: {str(e)[:160]}", w)
+    return None
+
+
 def check_paramclass_fields(_):
     """structural: every field of every paramclass takes part in == and hash (else unequal parameters share a cache
     entry): the library's own paramclasses and freshly declared ones with default / default_factory / required fields"""
@@ -379,6 +462,15 @@ def run(ctx):
                          "(3 call orders), a chain of three generators; a named result exported / qualified / used as a parameter inside the "
                          "body; names and exported names before/after",
                     bound="4 programs", key_of=repr)
+    ctx.run_bounded("string-pair-names", ALPHABETS if ctx.tier == "thorough" else ALPHABETS[:3], check_string_pairs,
+                    rule="every pair of strings built from up to three pieces of a small alphabet (a letter, the ` b=` "
+                         "separator shape, `=`, blank, tab, line breaks, `None`): different pairs get different names",
+                    bound="3 alphabets (5 thorough) x (1 + k + k^2 + k^3)^2 pairs", key_of=repr)
+    ctx.bounded[-1]["evaluations"] = getattr(check_string_pairs, "count", 0)
+    ctx.run_bounded("long-session", [3000, 20000] if ctx.tier == "thorough" else [3000], check_long_session,
+                    rule="a generator call repeated after N other cached generator calls (plain and nested) returns the "
+                         "first module, without running the body again; a design holding both exports",
+                    bound="N = 3000 (20000 thorough)", key_of=repr)
     ctx.run_bounded("paramclass-fields", ["all"], check_paramclass_fields,
                     rule="dataclass fields of every paramclass importable from hdl21 + the family's shapes: compare and "
                          "hash flags", bound="all paramclasses of the library", key_of=repr)
@@ -389,6 +481,10 @@ def replay(payload):
     inp = payload.get("input") or (payload.get("replay") or {}).get("input") or {}
     if inp.get("case") in ("handed-on", "self-handed-on", "chain", "used-before-returned"):
         r = check_handed_on(inp["case"])
+    elif inp.get("case") == "string-pairs":
+        r = check_string_pairs(tuple(inp["alphabet"]))
+    elif inp.get("case") == "long-session":
+        r = check_long_session(inp["n_other"])
     elif inp.get("case") == "paramclass-fields":
         r = check_paramclass_fields(0)
     elif "case" in inp:
